@@ -231,7 +231,7 @@ func TestVerif_C04C18C07_StringAxioms(t *testing.T) {
 // with line and column consistent with its offset.
 func TestVerif_C04C06C15_TextScanner(t *testing.T) {
 	res := &verifResult{Check: "text/scanner lexer", Property: "C04 C06 C15", Exhaustive: true,
-		Bound: "all inputs of length <= 4 (thorough: 5) over {a, 1, space, newline, \", ', `, /, *, \\xc3, \\xa9, \\xff, NUL, CR}, through LexString, LexBytes and Lex(reader)",
+		Bound: "all inputs of length <= 4 (thorough: 5) over {a, 1, space, newline, \", ', `, /, *, \\xc3, \\xa9, \\xff, NUL, CR}, through LexString, LexBytes and Lex(reader); every input also lexed alternately with its rotation through the one default definition",
 		Rule: "distinct inputs; non-trivial = more than one token or an error"}
 	alpha := []string{"a", "1", " ", "\n", `"`, "'", "`", "/", "*", "\xc3", "\xa9", "\xff", "\x00", "\r"}
 	maxLen := 4
@@ -323,6 +323,36 @@ func TestVerif_C04C06C15_TextScanner(t *testing.T) {
 				res.violate("input %q: TextScannerLexer.Lex: %v", in, err)
 			} else if d, _, _ := run(l, in); d != a {
 				res.violate("input %q: TextScannerLexer.Lex gives %s, LexString gives %s", in, d, a)
+			}
+			// two lexers of the one default definition alive at once, stepped alternately: each sees its own input
+			if len(in) >= 2 {
+				other := in[1:] + in[:1]
+				l1, e1 := TextScannerLexer.Lex("file", strings.NewReader(in))
+				l2, e2 := TextScannerLexer.Lex("file", strings.NewReader(other))
+				if e1 == nil && e2 == nil {
+					var s1, s2 []string
+					for i := 0; i <= len(in)+2; i++ {
+						t1, x1 := l1.Next()
+						t2, x2 := l2.Next()
+						s1 = append(s1, fmt.Sprintf("%d:%q@%d/%v", t1.Type, t1.Value, t1.Pos.Offset, x1 != nil))
+						s2 = append(s2, fmt.Sprintf("%d:%q@%d/%v", t2.Type, t2.Value, t2.Pos.Offset, x2 != nil))
+						if (x1 != nil || t1.EOF()) && (x2 != nil || t2.EOF()) {
+							break
+						}
+					}
+					alone := func(text string, n int) []string {
+						l := LexString("file", text)
+						var out []string
+						for i := 0; i < n; i++ {
+							t, x := l.Next()
+							out = append(out, fmt.Sprintf("%d:%q@%d/%v", t.Type, t.Value, t.Pos.Offset, x != nil))
+						}
+						return out
+					}
+					if fmt.Sprint(s1) != fmt.Sprint(alone(in, len(s1))) || fmt.Sprint(s2) != fmt.Sprint(alone(other, len(s2))) {
+						res.violate("inputs %q and %q lexed alternately through one definition give %v and %v; alone they give %v and %v", in, other, s1, s2, alone(in, len(s1)), alone(other, len(s2)))
+					}
+				}
 			}
 			if res.Evaluations%2801 == 7 {
 				res.sample(fmt.Sprintf("%q -> %s", in, a))
